@@ -92,7 +92,11 @@ func VH_C19_cycle() {
 	rt.Assert(string(buf2) == me, "lock-still-names-the-first-holder")
 	// how the holder goes away
 	if rt.Choose(2) == 0 {
+		// while the holder is still closing its repository the lock must still be there
+		lockedWhileClosing := false
+		r.OnClose = func() { _, lockedWhileClosing = r.FS.Files[lockfile] }
 		rt.Assert(c.Close() == nil, "clean-close")
+		rt.Assert(lockedWhileClosing, "lock-released-only-after-the-repository-is-closed")
 		_, still := r.FS.Files[lockfile]
 		rt.Assert(!still, "close-releases-the-lock")
 		rt.Cover("closed")
